@@ -18,14 +18,16 @@ func VerifApplyFocus(prof *profile.Profile, numLabelUnits map[string]string, opt
 }
 
 // VerifC06RawReport runs generateRawReport (driver.go) -- the caller of applyFocus for every
-// report -- with the given filter options, with and without relative_percentages, for the proto
-// command (addresses granularity: aggregation leaves the samples alone). prof is modified in place.
-func VerifC06RawReport(prof *profile.Profile, opts map[string]string, relative bool, ui plugin.UI) error {
+// report -- with the given filter options, with and without relative_percentages, for the given
+// report command (granularity pinned to addresses, so that aggregation leaves the samples alone
+// whatever the command). prof is modified in place.
+func VerifC06RawReport(prof *profile.Profile, cmd []string, opts map[string]string, relative bool, ui plugin.UI) error {
 	cfg := defaultConfig()
 	cfg.Focus, cfg.Ignore, cfg.Hide, cfg.Show, cfg.ShowFrom = opts["focus"], opts["ignore"], opts["hide"], opts["show"], opts["show_from"]
 	cfg.TagFocus, cfg.TagIgnore, cfg.TagShow, cfg.TagHide = opts["tagfocus"], opts["tagignore"], opts["tagshow"], opts["taghide"]
 	cfg.PruneFrom = opts["prune_from"]
 	cfg.RelativePercentages = relative
-	_, _, err := generateRawReport(prof, []string{"proto"}, cfg, &plugin.Options{UI: ui})
+	cfg.Granularity = "addresses"
+	_, _, err := generateRawReport(prof, cmd, cfg, &plugin.Options{UI: ui})
 	return err
 }
